@@ -153,12 +153,12 @@ def xts_len_classes():
 
 
 def pick_xts_len(rng):
-    """stratified: whole-block units below the main loops, short units with stealing, every tail of the by-8/by-16 loops"""
+    """stratified: m full blocks (every unrolled tail 1..9 of the by-8 loops) with and without a stolen remainder,
+    then the longer units that enter the by-8 / by-16 main loops, then sector sizes"""
     r = rng.random()
-    if r < 0.25:
-        return 16 * rng.randrange(1, 10)
     if r < 0.45:
-        return rng.randrange(16, 160)
+        m = rng.randrange(1, 10)
+        return 16 * m + (0 if rng.random() < 0.5 else rng.randrange(1, 16))
     if r < 0.9:
         return rng.randrange(144, 16 * 66)
     return rng.choice([4096, 4096 + 1, 4096 + 7, 4096 + 15, 65536, 65536 + 8])
